@@ -59,6 +59,7 @@ def parseKind : String → Option Kind
 /-- one item token; `<n>x<len>` = n always-ready chunks of len bytes -/
 def parseItem (t : String) : Option (List RawItem) :=
   if t == "p" then some [.pend] else if t == "e" then some [.err]
+  else if t.startsWith "t" then ((t.drop 1).toString).toNat?.map fun _ => [.pend]
   else match t.splitOn "x" with
     | [c, l] =>
       match c.toNat?, l.toNat? with
